@@ -18,9 +18,13 @@
        per-batch and total evaluation bit-exact, std up to 1e-12): the neighbourhood statistics recorded by the simulator classes are
        ordered records at every point of every run (an invariant of training, prediction and online updates), hence
        simulator_analyses_are_ordered for every finished record.
+     * the chunk loop of the drivers (ChunkCover.v): for EVERY chunk size and every number of test rows the [start, stop) pairs are
+       exactly the code's range(ceil(n / chunk_size)) with start = idx * chunk_size, stop = min((idx + 1) * chunk_size, n); they are
+       contiguous from 0 to n, non-empty, at most chunk_size long, and the slices of the test data taken at them concatenate to the
+       test data: every test row is predicted and evaluated exactly once, in order, whatever the chunk size.
     Not proved: nothing is claimed about the rounding of the numerical std (it is compared with the model's binary64 evaluation). *)
 From Coq Require Import List ZArith Bool Arith QArith Qcanon Permutation.
-From MW Require Import Num Assoc AssocFacts Rng Par CF CFInv CFClean CFForget CFSpec Matrix Lin Warm WarmInv Nbr NbrFacts NbrIndep LshFacts Clu Tree CellFacts Mab FacadeCF FacadeArms MoreFacts NumLaws CFAlg Sim Extra QcInst OrderFacts ExpIrrel LinInv FacadeLin LpInv NbrInv CluTreeInv FacadeAll ToyFacts C09All C10All LinForget LinSim MatrixFacts GaussJordan LinSpec NbrIndepGen CluIndep C17Lin WarmIdem C14More LshScale TreeLeaf Rename PopSpec CopyFacts StatFacts CluBatch LinWarm EvalOrder SimRun SimEval.
+From MW Require Import Num Assoc AssocFacts Rng Par CF CFInv CFClean CFForget CFSpec Matrix Lin Warm WarmInv Nbr NbrFacts NbrIndep LshFacts Clu Tree CellFacts Mab FacadeCF FacadeArms MoreFacts NumLaws CFAlg Sim Extra QcInst OrderFacts ExpIrrel LinInv FacadeLin LpInv NbrInv CluTreeInv FacadeAll ToyFacts C09All C10All LinForget LinSim MatrixFacts GaussJordan LinSpec NbrIndepGen CluIndep C17Lin WarmIdem C14More LshScale TreeLeaf Rename PopSpec CopyFacts StatFacts CluBatch LinWarm EvalOrder SimRun SimEval ChunkCover.
 Import ListNotations.
 
 Theorem C16_ordered_split_partition :
@@ -166,5 +170,25 @@ Theorem C16_simulator_analyses_are_ordered :
   NoDup arms -> leb N (st_sum s1) (st_sum s2) = true /\ leb N (st_sum s2) (st_sum s3) = true.
 Proof. exact @simulator_analyses_are_ordered. Qed.
 Print Assumptions C16_simulator_analyses_are_ordered.
+
+Theorem C16_chunk_loop_visits_every_test_row_exactly_once_in_order :
+  forall (T : Type) (c : nat) (l : list T),
+  concat
+    (map (fun ab : nat * nat => slice (fst ab) (snd ab) l) (chunk_bounds (S (length l)) c 0 (length l))) =
+  l.
+Proof. exact @chunk_bounds_cover. Qed.
+Print Assumptions C16_chunk_loop_visits_every_test_row_exactly_once_in_order.
+
+Theorem C16_chunks_are_contiguous_nonempty_and_bounded_by_the_chunk_size :
+  forall c n : nat,
+  contiguous 0 n (chunk_bounds (S n) c 0 n) /\
+  Forall (fun ab : nat * nat => (snd ab - fst ab <= Nat.max c 1)%nat) (chunk_bounds (S n) c 0 n).
+Proof. exact @chunk_bounds_shape. Qed.
+Print Assumptions C16_chunks_are_contiguous_nonempty_and_bounded_by_the_chunk_size.
+
+Theorem C16_chunk_loop_is_the_code_s_range_of_ceil_n_over_chunk_size :
+  forall c n : nat, (1 <= c)%nat -> chunk_bounds (S n) c 0 n = code_bounds c n.
+Proof. exact @chunk_bounds_closed_form. Qed.
+Print Assumptions C16_chunk_loop_is_the_code_s_range_of_ceil_n_over_chunk_size.
 
 
